@@ -61,4 +61,58 @@ theorem clonedIds_rets (ids : List Id) (o : List Outcome) : clonedIds ids.length
   | nil => simp [clonedIds]
   | cons id ids ih => simp only [List.length_cons, rets, List.map_cons, List.cons_append, clonedIds]; simp only [rets] at ih; rw [ih]
 
+/-- `extract_if` driven to the end (`calls > len`) with answers `bs`: the elements whose answer is
+    `true` are extracted in order, the others stay in order -/
+theorem extractRun_rets (xs : List Id) : ∀ (kept : List Id) (bs : List Nat) (o : List Outcome) (calls : Nat),
+    bs.length = xs.length → calls > xs.length →
+    extractRun calls kept xs (rets bs ++ o) = (kept ++ keptBy (· == 0) xs bs, [], false, keptBy (· != 0) xs bs, o) := by
+  induction xs with
+  | nil =>
+    intro kept bs o calls hb hc
+    have : bs = [] := List.eq_nil_of_length_eq_zero (by simpa using hb)
+    subst this
+    obtain ⟨c, rfl⟩ : ∃ c, calls = c + 1 := ⟨calls - 1, by omega⟩
+    simp [extractRun, scanSpec, rets, keptBy]
+  | cons x xs ih =>
+    intro kept bs o calls hb hc
+    match bs, hb with
+    | b :: bs, hb =>
+      simp only [List.length_cons, Nat.add_right_cancel_iff] at hb
+      simp only [List.length_cons] at hc
+      obtain ⟨c, rfl⟩ : ∃ c, calls = c + 1 := ⟨calls - 1, by omega⟩
+      by_cases h0 : b = 0
+      · -- retained: the scan goes on within the same call
+        subst h0
+        have e : extractRun (c + 1) kept (x :: xs) (rets (0 :: bs) ++ o) = extractRun (c + 1) (kept ++ [x]) xs (rets bs ++ o) := by
+          simp [extractRun, scanSpec, rets]
+        rw [e, ih (kept ++ [x]) bs o (c + 1) hb (by omega)]
+        simp [keptBy_cons]
+      · have hne : (b != 0) = true := by simp [h0]
+        have heq : (b == 0) = false := by simp [h0]
+        have e : extractRun (c + 1) kept (x :: xs) (rets (b :: bs) ++ o) =
+            ((extractRun c kept xs (rets bs ++ o)).1, (extractRun c kept xs (rets bs ++ o)).2.1, (extractRun c kept xs (rets bs ++ o)).2.2.1,
+              x :: (extractRun c kept xs (rets bs ++ o)).2.2.2.1, (extractRun c kept xs (rets bs ++ o)).2.2.2.2) := by
+          simp [extractRun, scanSpec, rets, h0]
+        rw [e, ih kept bs o c hb (by omega)]
+        simp [keptBy_cons, hne, heq]
+
+/-- `map_in_place` whose closure returns the values `ids` -/
+theorem mapSpec_rets (xs : List Id) : ∀ (done ids : List Id) (o : List Outcome), ids.length = xs.length →
+    mapSpec done xs (rets ids ++ o) = { final := done ++ ids, escaped := xs, exit := .ret (), rest := o } := by
+  induction xs with
+  | nil =>
+    intro done ids o h
+    have : ids = [] := List.eq_nil_of_length_eq_zero (by simpa using h)
+    subst this
+    simp [mapSpec, rets]
+  | cons x xs ih =>
+    intro done ids o h
+    match ids, h with
+    | id :: ids, h =>
+      simp only [List.length_cons, Nat.add_right_cancel_iff] at h
+      simp only [rets, List.map_cons, List.cons_append, mapSpec]
+      have := ih (done ++ [id]) ids o h
+      simp only [rets] at this
+      rw [this]; simp
+
 end Coll
